@@ -177,9 +177,7 @@ def handler : Driver.Handler := fun c i => do
         (judgeAll ((List.range n).filter (fun g => mm.getD g true)) dd ms).isNone
       let a : Option String :=
         if !k then none
-        else if passes Pruning.Dev.none masks then
-          (if passes { definiteViaF64 := false, i32Narrowing := true } masks then some "C05-F1"
-           else if passes { definiteViaF64 := true, i32Narrowing := false } masks then some "C05-F2" else some "C05-F1")
+        else if passes Pruning.Dev.none masks then none      -- C05-F1 / C05-F2 are fixed (e356a0a): a recurrence is a violation
         else
           -- float statistics follow IEEE order without NaN, the predicate follows the total order: neutralise by removing the rows that hold NaN / a zero
           let ms' := (rgsRows.zip mMasks).map (fun (rows, m) => match m with
@@ -192,7 +190,7 @@ def handler : Driver.Handler := fun c i => do
     -- coverage tags
     let pruned := n - keep.length
     tags := tags ++ (if pruned > 0 then ["pruned"] else []) ++ (if defn.any id then ["definite"] else [])
-      ++ (if mMight != (run Pruning.Dev.none).1 || mDef != (run Pruning.Dev.none).2 then ["switch-visible"] else [])
+      ++ (if (run Pruning.Dev.old).1 != (run Pruning.Dev.none).1 || (run Pruning.Dev.old).2 != (run Pruning.Dev.none).2 then ["switch-visible"] else [])
   let hasNull := rgsRows.any (fun rows => rows.any (fun r => r.any Val.isNull))
   let tys := ((← Driver.getArr c "cols").toList.filterMap (fun x => (x.getObjValAs? String "ty").toOption)).map (fun t => s!"ty-{t}")
   let nostats := rgs.any (fun rg => rg.any Option.isNone)
